@@ -27,6 +27,7 @@ type Case struct {
 }
 
 type caseResult struct {
+	envTrouble bool
 	envNotes   []string
 	name       string
 	ops, impl  []string
@@ -270,6 +271,7 @@ func (w *worker) runCase(cfg Cfg, name string, next func(*view) (string, bool)) 
 					"address already in use", "permission denied", "cannot assign", "no such device", "network is unreachable"} {
 					if strings.Contains(e, w) {
 						res.envNotes = append(res.envNotes, fmt.Sprintf("%s: %s answered %d, connection closed with: %s", name, r.Method, out.Status, e))
+						res.envTrouble = true
 						break
 					}
 				}
@@ -428,6 +430,12 @@ func emit(c *corr.Ctx, r caseResult) {
 			c.Note("environment? " + n)
 		}
 		envNoteCount++
+	}
+	if r.envTrouble {
+		// the operating system refused a socket operation (e.g. a multicast port taken by another
+		// process on this machine): nothing to learn about the server from this case
+		c.Dist("skipped:operating-system-refused-a-socket-operation")
+		return
 	}
 	if r.skipped {
 		if r.dist["skipped-after-hang"] == 0 {
